@@ -10,6 +10,11 @@ TRUSTED = [
     'modelled, not verified: statsmodels OLS (params, cov_params, scale, df_resid) and scipy.stats.t (frozen location-scale '
     'family: ppf(p) = loc + scale * ppf_std(p), cdf likewise) -- tied by executed correspondence to 1e-8 relative',
     'square roots never enter the model: scales are compared through their squares',
+    'translator translate/py2v.py target formulas: TBRMMDiagnostics._impact_estimate, estimate_required_impact and tbrfit are '
+    'regenerated into gen/Gen_Formulas.v over abstract float operations and a square-root oracle (scipy quantiles, np.std, np.var, '
+    'the means and the pre-period fit are oracles); proofs/FormulasBridge.v: over Q, with a square-root oracle exact on the '
+    'arguments it meets, their squares are the model\'s; the same statements run on binary64 floats are compared with the '
+    'implementation (2^-44 relative)',
     'harness: frame values are multiples of 1/8 so that group totals are exact in binary64',
 ]
 KNOWN_CLASS = 'one-tailed-level-below-half'
@@ -115,6 +120,8 @@ def analyse(spec):
   if not close(float(fit.cihw), est - lo, 1e-8, 1e-6):
     out['fails'].append('design-side half-width %r differs from the analysis %r' % (float(fit.cihw), est - lo))
   out['design'] = (xt, yt, float(fit.estimate), float(fit.scale))
+  if all(v == v and abs(v) != float('inf') for v in (float(fit.estimate), float(fit.scale))):
+    out['fterm'] = tbrfam.tbrfit_term(dg, [p[0] for p in pre], [p[1] for p in pre], T, 0.9, xt, yt)
   return out
 
 
@@ -159,7 +166,7 @@ def model_compare(ck, terms, tag, fn='acheck', shard=6):
 
 def run(tier):
   ck = Check('C06', tier)
-  ck.prove('props/C06.v', gen_targets=[], extra=['harness/RunTBR.vo'])
+  ck.prove('props/C06.v', gen_targets=['formulas'], extra=['harness/RunTBR.vo', 'harness/RunFormulas.vo'])
   n = common.sz(tier, 150, 3000)
   res = common.pmap(_one, [ck.seed * 100003 + 6 * 1009 + i for i in range(n)], chunksize=4)
   terms, owners, known = [], [], 0
@@ -181,6 +188,12 @@ def run(tier):
   if bad:
     ck.tie_broken('correspondence', 'TBR posterior vs model/TBRMath.v on %d of %d frames' % (len(bad), len(terms)),
                   {'spec_seed': owners[bad[0]]})
+  fo = [(sp, o) for sp, o in res if 'fterm' in o]
+  _, bf = tbrfam.formulas_compare(ck, [], [o['fterm'] for _, o in fo], 'c06')
+  if bf:
+    ck.tie_broken('correspondence', 'regenerated tbrfit (gen/Gen_Formulas.v on floats) vs TBRMMDiagnostics.tbrfit on %d of %d frames'
+                  % (len(bf), len(fo)), {'spec_seed': fo[bf[0]][0]['seed']})
+  ck.cov['regenerated_formulas_vs_impl'] = {'cases': len(fo), 'tbrfit_disagreements': len(bf)}
   ck.sample({'seed': res[0][0]['seed'], 'n_pre': res[0][0]['n_pre'], 'n_test': res[0][0]['n_test'], 'n_cool': res[0][0]['n_cool'],
              'geos': [(g['id'], g['group']) for g in res[0][0]['geos']]})
   ck.cov['rule'] = ('experiment frames with 1-4 geos per group, 5-40 pre-period dates, 3-14 test dates, optional cooldown, on a fresh TBR object or (half of the frames) one that fitted and reported another experiment before; each frame is '
